@@ -18,7 +18,7 @@ func (p *PrefixKV) k(key []byte) []byte {
 	return append(out, key...)
 }
 
-func (p *PrefixKV) Type() string           { return "vfkv-prefix" }
+func (p *PrefixKV) Type() string          { return "vfkv-prefix" }
 func (p *PrefixKV) Set(key, value []byte) { p.KV.Set(p.k(key), value) }
 func (p *PrefixKV) Delete(key []byte)     { p.KV.Delete(p.k(key)) }
 func (p *PrefixKV) Get(key []byte) []byte { return p.KV.Get(p.k(key)) }
